@@ -293,12 +293,20 @@ def _call(fn):
 # ------------------------------------------------------------------------------------------
 # test statistic: implementation adapters
 
-def _ts_new(cls, layout=None):
+def _ts_new(cls, layout=None, tsname=None):
     from skyllh.core.test_statistic import WilksTestStatistic, LLHRatioZeroNsTaylorWilksTestStatistic
     c = {'wilks': WilksTestStatistic, 'taylor': LLHRatioZeroNsTaylorWilksTestStatistic}[cls]
+    if tsname is not None:
+        return c(ns_param_name=tsname)
     if layout in _LAYOUT_NAME:
         return c(ns_param_name=_LAYOUT_NAME[layout])
     return c()
+
+
+def _names_of(case):
+    pmm = _pmm(case['layout'])[0]
+    names = [p_.name for p_ in pmm.global_paramset.floating_params]
+    return names, case.get('tsname') or _LAYOUT_NAME.get(case['layout'], 'ns')
 
 
 def _fp_of(case):
@@ -311,7 +319,7 @@ def _fp_of(case):
 def impl_ts(case, tsobj=None):
     pmm, idx, fp = _fp_of(case)
     if tsobj is None:
-        tsobj = _ts_new('wilks', case['layout'])
+        tsobj = _ts_new('wilks', case['layout'], case.get('tsname'))
     return _call(lambda: _as_float(tsobj(pmm=pmm, log_lambda=np.float64(_f(case['ll'])), fitparam_values=fp)))
 
 
@@ -324,7 +332,7 @@ def impl_tst(case, tsobj=None):
     if case.get('pass_grads', True):
         kw['grads'] = grads
     if tsobj is None:
-        tsobj = _ts_new('taylor', case['layout'])
+        tsobj = _ts_new('taylor', case['layout'], case.get('tsname'))
     v, err = _call(lambda: _as_float(tsobj(**kw)))
     for ev in stub.evals:
         if ev != [float(x) for x in fp]:
@@ -346,6 +354,9 @@ def _check_ts(case, v, err):
 def o_ts(ctx, case):
     """documented definition: TS = 2 sgn(ns) logΛ, sgn(0) = +1 (exact: the operations involved are exact)"""
     v, err = impl_ts(case)
+    if case.get('tsname') is not None and case['tsname'] not in _names_of(case)[0]:
+        return None if (err and err.startswith('KeyError')) else 'test statistic with unknown ns_param_name=%r gave %s instead of KeyError' % (
+            case['tsname'], err or repr(v))
     return _check_ts(case, v, err)
 
 
@@ -377,7 +388,11 @@ def _check_tst(case, v, err, calls, idx):
 
 def o_ts_taylor(ctx, case):
     """documented definition of the zero-ns Taylor variant (stub LLH ratio with prescribed a, b)"""
-    return _check_tst(case, *impl_tst(case))
+    r = impl_tst(case)
+    if case.get('tsname') is not None and case['tsname'] not in _names_of(case)[0]:
+        return None if (r[1] and r[1].startswith('KeyError')) else 'test statistic with unknown ns_param_name=%r gave %s instead of KeyError' % (
+            case['tsname'], r[1] or repr(r[0]))
+    return _check_tst(case, *r)
 
 
 # ---- histories of calls on ONE test-statistic instance
@@ -1393,6 +1408,14 @@ def _names(xs):
 
 def corr_request(case):
     k = case['kind']
+    if k in ('ts', 'tst') and 'layout' in case:
+        names, name = _names_of(case)
+        pmm, idx, fp = _fp_of(case)
+        if k == 'ts':
+            return 'tsc %s %s %s %s' % (_names(names), name, flist(fp), f2b(_f(case['ll'])))
+        grads = [0.125 * (i + 1) for i in range(len(fp))]
+        grads[idx] = _f(case['a'])
+        return 'tstc %s %s %s %s %s %s' % (_names(names), name, flist(fp), f2b(_f(case['ll'])), flist(grads), f2b(_f(case['b'])))
     if k == 'ts':
         return 'ts %s %s' % (f2b(_f(case['ns'])), f2b(_f(case['ll'])))
     if k == 'tst':
@@ -1438,12 +1461,18 @@ def corr_compare(case, model):
     k = case['kind']
     if k == 'ts':
         v, err = impl_ts(case)
+        if model in ('K', 'I'):
+            want = 'KeyError' if model == 'K' else 'IndexError'
+            return None if (err and err.startswith(want)) else 'ts: implementation %s, model %s' % (err or repr(v), want)
         m = b2f(model)
         if err or not _same(v, m):
             return 'ts: implementation %s, model %r' % (err or repr(v), m)
         return None
     if k == 'tst':
         v, err, calls, idx = impl_tst(case)
+        if model in ('K', 'I'):
+            want = 'KeyError' if model == 'K' else 'IndexError'
+            return None if (err and err.startswith(want)) else 'tst: implementation %s, model %s' % (err or repr(v), want)
         return _cmp_tst(v, err, model)
     if k == 'pv':
         r = impl_pv(case)
@@ -1930,13 +1959,19 @@ def run(ctx):
         ctx.count('ts:layout=' + layout)
         ctx.count('ts:ns' + ('<0' if ns < 0 else '=0' if ns == 0 else '>0'))
         others = [rng.choice([2.5, -2.5, 0.0, 7.0, -3.0]) for _ in range(4)]
+        tsname = rng.choice(['nsignal', 'gamma_', 'NS']) if rng.random() < 0.04 else None     # no such floating parameter
         c = {'kind': 'ts', 'layout': layout, 'ns': ns, 'll': ll, 'others': others}
+        if tsname:
+            c['tsname'] = tsname
+            ctx.count('ts:unknown-ns_param_name')
         cases.append(c)
         ocases.append(('ts', c))
         a = rng.choice([0.0, 0.0, -0.3, 0.7, rng.gauss(0, 2), 1e-8])
         b = rng.choice([-0.05, -1.0, -rng.uniform(1e-6, 10), -1e-12, 0.25, 0.0, -0.0])
         c = {'kind': 'tst', 'layout': layout, 'ns': ns, 'll': ll, 'a': a, 'b': b, 'others': others,
              'pass_grads': rng.random() < 0.7}
+        if tsname:
+            c['tsname'] = tsname
         ctx.count('tst:b%s' % ('=0,a=0' if (b == 0 and a == 0) else '=0,a!=0' if b == 0 else '<0' if b < 0 else '>0'))
         cases.append(c)
         ocases.append(('ts_taylor', c))
